@@ -370,6 +370,54 @@ fn eq_probes(rng: &mut Rng, t: &mut Trace, dt: &DataType) {
     }
 }
 
+/// `==` on List<Boolean> over the whole lattice of (first list offset S, child ArrayData offset k)
+/// in 0..=8 x 0..=8 against a freshly built equal array and a one-bit-different one: the
+/// equality of bit-packed children has byte-aligned fast paths that depend on S, k and S + k
+fn eq_lattice(rng: &mut Rng, t: &mut Trace) {
+    use arrow_buffer::OffsetBuffer;
+    use arrow_schema::Field;
+    let field = Arc::new(Field::new("item", DataType::Boolean, true));
+    let ty = tok::type_str(&DataType::List(field.clone()));
+    for s0 in 0..=8usize {
+        for k in 0..=8usize {
+            let body = 8 + rng.below(20); // >= 8 values so that whole bytes are compared
+            let total = s0 + body;
+            let vals: Vec<bool> = (0..total).map(|_| rng.chance(50)).collect();
+            // child with ArrayData offset k: [k random bits | vals] sliced back
+            let mut padded: Vec<bool> = (0..k).map(|_| rng.chance(50)).collect();
+            padded.extend(vals.iter().copied());
+            let child: ArrayRef = Arc::new(BooleanArray::from(padded).slice(k, total));
+            // lists over vals[s0..]: offsets start at s0
+            let mut offs = vec![s0 as i32];
+            let mut cur = s0;
+            while cur < total {
+                cur = (cur + 1 + rng.below(4)).min(total);
+                offs.push(cur as i32);
+            }
+            let Ok(lhs) = ListArray::try_new(field.clone(), OffsetBuffer::new(offs.clone().into()), child, None) else { continue };
+            let lhs: ArrayRef = Arc::new(lhs);
+            // the same logical lists, freshly allocated from offset 0
+            let fresh = |flip: Option<usize>| -> ArrayRef {
+                let mut v: Vec<bool> = vals[s0..].to_vec();
+                if let Some(i) = flip { v[i] = !v[i] }
+                let o: Vec<i32> = offs.iter().map(|x| x - s0 as i32).collect();
+                Arc::new(ListArray::new(field.clone(), OffsetBuffer::new(o.into()), Arc::new(BooleanArray::from(v)), None))
+            };
+            let same = fresh(None);
+            let diff = fresh(Some(rng.below(body)));
+            for (name, other) in [("same", &same), ("different", &diff)] {
+                let (ra, rb) = (tok::rows(lhs.as_ref()), tok::rows(other.as_ref()));
+                for (x, y, rx, ry, dir) in [(&lhs, other, &ra, &rb, "lr"), (other, &lhs, &rb, &ra, "rl")] {
+                    match guarded(|| x.as_ref() == y.as_ref()) {
+                        Ok(r) => t.emit(json!({"op":"eq","via":format!("lattice S={s0} k={k} {name} {dir}"),"fam":"list","kvnull":false,"ta":ty,"a":tok::strs(rx),"tb":ty,"b":tok::strs(ry),"r":r})),
+                        Err(_) => t.emit(json!({"op":"eq","via":format!("lattice S={s0} k={k} {name} {dir} PANIC"),"fam":"list","kvnull":false,"ta":ty,"a":tok::strs(rx),"tb":ty,"b":tok::strs(ry),"r":"panic"})),
+                    }
+                }
+            }
+        }
+    }
+}
+
 fn readback_probes(rng: &mut Rng, t: &mut Trace) {
     // arrays built from known values through different construction paths, read back through
     // value(i), iterators and the display formatter
@@ -469,9 +517,35 @@ fn main() {
     for t in traces {
         n += t.finish();
     }
-    // == and read-back probes
+    // == and read-back probes (plus nested types with bit-packed children, whose equality has
+    // byte-aligned fast paths that depend on start + offset)
+    let mut eq_types = types.clone();
+    {
+        use arrow_schema::{Field, Fields};
+        let f = |t: DataType| std::sync::Arc::new(Field::new("item", t, true));
+        eq_types.extend([
+            DataType::List(f(DataType::Boolean)),
+            DataType::LargeList(f(DataType::Boolean)),
+            DataType::FixedSizeList(f(DataType::Boolean), 3),
+            DataType::List(f(DataType::FixedSizeBinary(2))),
+            DataType::Struct(Fields::from(vec![Field::new("b", DataType::Boolean, true), Field::new("l", DataType::List(f(DataType::Boolean)), true)])),
+            DataType::List(f(DataType::List(f(DataType::Boolean)))),
+        ]);
+    }
     let mut t = vcore::trace::Shards::create(&args.out, "eq", shards);
-    for _ in 0..args.scale(1, 10) {
+    for round in 0..args.scale(1, 10) {
+        for (ti, dt) in eq_types.iter().enumerate() {
+            // the added bit-packed nested types get several probes per round
+            let reps = if ti >= types.len() { 6 } else { 1 };
+            for _ in 0..reps {
+                eq_probes(&mut rng, &mut t.shards[0], dt);
+                t.shards.rotate_left(1);
+            }
+            let _ = round;
+            continue;
+        }
+    }
+    for _ in 0..0 {
         for dt in &types {
             eq_probes(&mut rng, &mut t.shards[0], dt);
             t.shards.rotate_left(1);
@@ -479,6 +553,10 @@ fn main() {
     }
     for _ in 0..args.scale(10, 200) {
         readback_probes(&mut rng, &mut t.shards[0]);
+        t.shards.rotate_left(1);
+    }
+    for _ in 0..args.scale(2, 20) {
+        eq_lattice(&mut rng, &mut t.shards[0]);
         t.shards.rotate_left(1);
     }
     let n2 = t.finish();
